@@ -223,6 +223,9 @@ func (e *env) write(wr Write, k int) error {
 		}
 	}
 	a := writers[mod(wr.Author, len(writers))]
+	if wr.Pref > 0 && wr.Pref <= w.N && canWrite(w.M.Perm[wr.Pref-1]) {
+		a = wr.Pref - 1
+	}
 	v, err := e.view(a)
 	if err != nil {
 		return err
@@ -242,6 +245,12 @@ func (e *env) write(wr Write, k int) error {
 		plain = append(plain, byte('a'+(len(plain)*7+k)%26))
 	}
 	curGen := len(e.gens) - 1
+	if v.outFed && v.outGens == len(e.gens) {
+		// the account was out, its open tree went on receiving changes, it was admitted again
+		// without another rotation and now writes through that same tree object
+		e.classes["tree-readmitted-without-rotation-writes-through-open-tree"] = true
+	}
+	v.outFed = false
 	v.tree.Lock()
 	res, err := v.tree.AddContent(ctx, objecttree.SignableChangeContent{
 		Data: append([]byte(nil), plain...), Key: w.Keys[a].SignKey, ShouldBeEncrypted: true, Timestamp: 946684800 + int64(k) + 1, DataType: "t",
@@ -364,9 +373,31 @@ func (e *env) write(wr Write, k int) error {
 		if err := e.feed(vi); err != nil {
 			return fmt.Errorf("member %d cannot add the transmitted raw changes to its tree: %v", i, err)
 		}
+		if vi.outFed && vi.outGens == len(e.gens) {
+			e.classes["tree-readmitted-without-rotation-reads-through-open-tree"] = true
+		}
+		vi.outFed = false
 		if err := e.checkReader(i, vi.tree, fmt.Sprintf("account %d's long-lived tree", i)); err != nil {
 			return err
 		}
+	}
+	// the still-open tree of an account that lost its permission goes on receiving the
+	// ciphertext (it must not read it); the same object is used again if the account returns
+	for i := 0; i < w.N; i++ {
+		vi, has := e.views[i]
+		if member(w.M.Perm[i]) || !has {
+			continue
+		}
+		if err := e.feed(vi); err != nil {
+			vi.tree.Close()
+			delete(e.views, i) // a fresh tree is built if the account returns
+			continue
+		}
+		vi.outFed, vi.outGens = true, len(e.gens)
+		if err := e.checkReader(i, vi.tree, fmt.Sprintf("account %d's still-open tree", i)); err != nil {
+			return err
+		}
+		e.classes["tree-open-tree-of-removed-account-receives-ciphertext"] = true
 	}
 	// an account without permission that gets hold of the stored ciphertext must not read what
 	// was written under generations introduced since it last held one
@@ -523,11 +554,17 @@ func (e *env) finalTrees() error {
 			if err != nil {
 				return err
 			}
+			delivered := vi.have < len(e.changes)
 			if err := e.feed(vi); err != nil {
 				return fmt.Errorf("member %d cannot add the transmitted raw changes to its tree: %v", i, err)
 			}
-			if err := e.checkReader(i, vi.tree, fmt.Sprintf("account %d's long-lived tree", i)); err != nil {
-				return err
+			// an open tree that received ciphertext while its account was out reloads its keys
+			// the next time it takes part in something (a change arrives, it writes): reading
+			// through it before that is outside the statement (IterateRoot does not look at the ACL)
+			if !vi.outFed || delivered {
+				if err := e.checkReader(i, vi.tree, fmt.Sprintf("account %d's long-lived tree", i)); err != nil {
+					return err
+				}
 			}
 		}
 		if err := e.fromStorage(i); err != nil {
